@@ -242,6 +242,10 @@ def run(ctx):
             else:
                 want = (s.field, s.sub)
                 ok = s.stores == [want]
+                if ok and s.store_problem:
+                    ctx.ob('C13.replace-exact', cons + ':slot', False,
+                           f'{cons}: {s.store_problem}', file=w.file, line=s.call.lineno,
+                           witness='select a, b, a  -- a visitor replacing only the second `a` replaces the first')
                 ctx.ob('C13.replace-exact', cons, ok,
                        f'{cons}: the visit reads `{norm(s.call.args[0])}` but its result is stored into '
                        f'{[("node." + f + ("[]." + sub if sub else "")) for f, sub in s.stores] or "nothing"}; a node returned by the '
